@@ -442,6 +442,18 @@ func (x *Exec) callSpec(s *State, fr *Frame, spec *FuncSpec, key string, args []
 			x.materialize(s, t)
 		}
 	}
+	// in-place mutation of slice arguments: every holder of that slice value (same bounds) sees the new contents.
+	// Slices with other bounds over the same array are not tracked (stated in the evidence).
+	for _, ms := range spec.Mutates {
+		oldv, ok := env[ms.Param]
+		if !ok || oldv.Term == nil {
+			continue
+		}
+		nv := x.eval(ctx, ms.Expr)
+		nt := x.w.Reg.Fresh("mutated", oldv.Term.Sort)
+		s.assume(Eq(nt, nv.Term))
+		x.replaceTerm(s, oldv.Term, nt)
+	}
 	return rs, true
 }
 
